@@ -37,7 +37,7 @@ def _worker(args):
     try:
         mod = importlib.import_module(modname)
         h = (mod.CANARIES if canary else mod.HARNESSES)[hidx]
-        repo = Repo(REPO, numpy_mode=getattr(h, "numpy_mode", "real"))
+        repo = Repo(REPO, numpy_mode=getattr(h, "numpy_mode", "real"), rs_model=getattr(h, "rs_model", False))
         import copy
         cases = list(type(h).cases(h))
         if case_idx is not None:
